@@ -350,8 +350,7 @@ func C10(tier string) int {
 		c.Sample(map[string]any{"file": cases[100].text, "expected_origins": cases[100].exp, "context": cases[100].context})
 	}
 	// soundness on every file of the product sweep
-	sw := explore.Cases(explore.CaseOpts{Tier: tier, Prefixes: true, Edits: tier == "thorough"})
-	explore.Sweep(sw, c, deadline, explore.Opts{Kinds: []run.Kind{run.CollectOrigins}, OnResult: c10Soundness})
+	explore.SweepGroups(explore.Groups(explore.CaseOpts{Tier: tier, Prefixes: true, Edits: tier == "thorough"}), c, deadline, explore.Opts{Kinds: []run.Kind{run.CollectOrigins}, OnResult: c10Soundness})
 	return c.Finish(report.FinishOpts{
 		Tier: tier, Level: "exploration", EvalCounter: "calls",
 		Rule:         "E2: a typed expression generator (string/number/bool/list/map/object/tuple productions: templates, heredocs, directives, operators, conditionals, for expressions with iterators, index keys, parentheses, known/namespaced/variadic calls, nested to depth 2 (quick) / 3 (thorough); every traversal drawn fresh in 5 address forms + self.*) records the references it writes (address, exact byte range); each expression is placed under every reference-admitting constraint (AnyExpression of each type and dynamic, Reference, OneOf, List/Set/Map/Object/Tuple of those, count/for_each) and every non-admitting one (LiteralType, LiteralValue, Keyword, TypeDeclaration, literal-reserved object keys/tuple slots, unknown keys) in 8 body contexts (root, noise of unknown items, block with self refs, nested block, dynamic content, dependent body resolved/unresolved, unknown block), 1 or 3 files. Oracle: multiset of (address, range) of local origins == generator's list; ordered by file and position. Plus soundness on every file of the E1 sweep: origin text re-parses to its address, no duplicates, ordered.",
